@@ -21,12 +21,12 @@ func init() {
 
 func init() {
 	runners["C01"] = func(c *Ctx) {
-		c.Rep.Rule = "XML-level cases through ValidateEncodedResponse/RetrieveAssertionInfo: genuine mini-IdP Responses (1..5 assertions; signature on Response, assertions, both, none; keys trusted1/trusted2/attacker; 6 canonicalisers x 4 signature algorithms; 5 prefix styles; pretty printing; XML declaration; DEFLATE) followed by 0..2 attacker edits out of 20 (tampering, signature stripping, XSW wrapping/relocation/duplication/ID collision, signature-in-Object, re-signing, KeyInfo swapping, retagging, attacker-side encryption of forged assertions); non-trivial = edited or non-default configuration; distinct by label set"
+		c.Rep.Rule = "XML-level cases through ValidateEncodedResponse/RetrieveAssertionInfo: genuine mini-IdP Responses (1..5 assertions; signature on Response, assertions, both, none; keys trusted1/trusted2/attacker; 6 canonicalisers x 4 signature algorithms; 5 prefix styles; pretty printing; XML declaration; DEFLATE) followed by 0..2 attacker edits out of 22 (nesting inside a clean Response, sender-supplied SignatureValidated attribute, tampering, signature stripping, XSW wrapping/relocation/duplication/ID collision, signature-in-Object, re-signing, KeyInfo swapping, retagging, attacker-side encryption of forged assertions); non-trivial = edited or non-default configuration; distinct by label set"
 		runResponseStream(c, c.N(400, 8000), "C01")
 	}
 }
 
-const respRule = "XML-level cases through ValidateEncodedResponse/RetrieveAssertionInfo: genuine mini-IdP Responses (1..5 assertions; signature on Response, assertions, both, none; keys trusted1/trusted2/attacker; 6 canonicalisers x 4 signature algorithms; 5 prefix styles; pretty printing; XML declaration; DEFLATE; genuine encryption of signed assertions) followed by 0..2 attacker edits out of 20 (tampering, signature stripping, XSW wrapping/relocation/duplication/ID collision, signature-in-Object, re-signing, KeyInfo swapping, retagging, attacker-side encryption of forged assertions); non-trivial = edited or non-default configuration; distinct by label set; emphasis: "
+const respRule = "XML-level cases through ValidateEncodedResponse/RetrieveAssertionInfo: genuine mini-IdP Responses (1..5 assertions; signature on Response, assertions, both, none; keys trusted1/trusted2/attacker; 6 canonicalisers x 4 signature algorithms; 5 prefix styles; pretty printing; XML declaration; DEFLATE; genuine encryption of signed assertions) followed by 0..2 attacker edits out of 22 (nesting inside a clean Response, sender-supplied SignatureValidated attribute, tampering, signature stripping, XSW wrapping/relocation/duplication/ID collision, signature-in-Object, re-signing, KeyInfo swapping, retagging, attacker-side encryption of forged assertions); non-trivial = edited or non-default configuration; distinct by label set; emphasis: "
 
 func init() {
 	runners["C02"] = func(c *Ctx) {
